@@ -104,6 +104,10 @@ def fill_markdown(
             # Nothing but frontmatter (or an unclosed frontmatter block): no body to format.
             return frontmatter if frontmatter.endswith("\n") else frontmatter + "\n"
         markdown_text = content
+    else:
+        # With frontmatter the body arrives with LF line ends (see `split_frontmatter`);
+        # without it a CRLF body must be dedented and parsed the same way.
+        markdown_text = markdown_text.replace("\r\n", "\n")
 
     if dedent_input:
         markdown_text = _dedent(markdown_text).strip()
